@@ -227,6 +227,10 @@ def evaluate_z3_re_loop(
     if expr.decl().kind() != z3.Z3_OP_RE_LOOP:
         return Nothing
 
+    if len(expr.params()) != 2 or expr.params()[0] > expr.params()[1]:
+        # Not expressible as a Python repetition (re.error); leave it to Z3.
+        return Nothing
+
     return Some(
         construct_result(
             lambda args: f"(?:{args[0]}){{{expr.params()[0]},{expr.params()[1]}}}",
